@@ -104,14 +104,11 @@ Example C05_hyps_satisfiable :
   /\ (1 <= popsize 2 [0; 1; 2]%nat <= 1024)%Z /\ size_ok (popsize 2 [0; 1; 2]%nat) = true
   /\ geno_ok 2 [[2; 0]; [1; 1]; [2; 0]]%Z [0; 1; 2]%nat 2 /\ targets_het [[1#2]; [1#4]] 2 1.
 Proof.
-  repeat match goal with |- _ /\ _ => split end; try reflexivity; try discriminate; try exact I.
-  - intros i [<-|[<-|[]]]; lia.
-  - repeat constructor; cbn; intuition lia.
-  - cbn. repeat constructor; cbn; intuition lia.
-  - apply perm_swap.
-  - vm_compute. discriminate.
-  - vm_compute. discriminate.
-  - vm_compute. split; discriminate.
+  split; [reflexivity|]. split; [intros i [<-|[<-|[]]]; lia|]. split; [discriminate|]. split; [repeat constructor; cbn; intuition lia|].
+  split; [cbn; repeat constructor; cbn; intuition lia|]. split; [exact I|]. split; [apply perm_swap|].
+  split; [apply Qle_bool_iff; vm_compute; reflexivity|]. split; [apply Qle_bool_iff; vm_compute; reflexivity|].
+  split; [vm_compute; split; discriminate|]. split; [vm_compute; reflexivity|].
+  split.
   - intros j Hj. destruct j as [|[|j]]; [vm_compute; split; discriminate | vm_compute; split; discriminate | lia].
-  - intros j q Hj. destruct j as [|[|j]]; [| |lia]; destruct q as [|q]; try reflexivity.
+  - intros j q Hj Hq. destruct j as [|[|j]]; [| |lia]; (destruct q as [|q]; [reflexivity | lia]).
 Qed.
